@@ -66,7 +66,7 @@ PROPS["C05"] = {
             "style, number spelling); a malformed stream; and a separate stream of raw bit patterns. Compared: output bytes of MarshalCanonical on the "
             "text, on the decoded Go value, and of canonicalizing the output again. Non-trivial = accepted input; distinct = distinct input text/bits.",
     "technique": "Lean 4 theorems on the JCS model (sorting, permutation invariance, escaping) + differential correspondence on bytes",
-    "level_text": "Proved in Lean (Lemmas/RoundTrip.lean): the strict reader undoes the printer on every value without numbers, so parsing the RFC 8785 encoding of such a value yields its normal form (canonical_text_reads_back_partial; escapes, nesting and member order included; numbers excluded). Proved in Lean for all values: canonical objects have strictly UTF-16-sorted members and the order is a strict total order on names "
+    "level_text": "Proved in Lean (Lemmas/RoundTrip.lean): the strict reader undoes the printer on every value without numbers, so parsing the RFC 8785 encoding of such a value yields its normal form (canonical_text_reads_back_partial; escapes, nesting and member order included; numbers excluded); the normal form is its own normal form and canonical text is a fixed point of the transformer (normalize_idempotent_partial, transform_fixed_point_partial). Proved in Lean for all values: canonical objects have strictly UTF-16-sorted members and the order is a strict total order on names "
                   "(UTF-16 encoding injective); the canonical form does not depend on input member order (at top level or nested); duplicate names are refused; "
                   "escaping is minimal with the RFC 8785 forms; equivalent values give identical bytes; the ES6 notation table. NOT proved: the parse∘print round trip "
                   "(fixed point / same value) and shortest-digit correctness of the number formatter; these rest on the correspondence stream, which compares "
